@@ -37,8 +37,9 @@ from harness.common import guarded
 RULE = (
     "cases from one SplitMix64 stream: algorithm in {PPO,A2C,DQN,SAC,TD3,DDPG} x n_envs in {1,2} (thorough: also 3,4) x "
     "observation kind {box, dict, goal-dict (HER), image+CNN (thorough)} x action kind {discrete, box, asymmetric box} x "
-    "env container {DummyVecEnv, plain env (Monitor+DummyVecEnv by the library), VecNormalize, SubprocVecEnv (thorough)} "
-    "x options {gSDE with sde_sample_freq / use_sde_at_warmup, Normal / OU / pre-vectorised action noise, epsilon-greedy "
+    "env container {DummyVecEnv, plain env (Monitor+DummyVecEnv by the library), VecNormalize, SubprocVecEnv} "
+    "x reset options pending at the first reset (VecEnv.set_options with one dict / a per-env list with empty entries, "
+    "called by the env constructor or just before learn()) x options {gSDE with sde_sample_freq / use_sde_at_warmup, Normal / OU / pre-vectorised action noise, epsilon-greedy "
     "schedule, warm-up length, HER future/final/episode with n_sampled_goal, PPO epochs/minibatch, train_freq/"
     "gradient_steps, second learn() call with and without reset_num_timesteps} x seed (0 with weight, small, 31-bit) x "
     "stochastic env drawing from its own np_random (always) and optionally from python `random` / global numpy. "
@@ -51,7 +52,8 @@ RULE = (
 STREAMS = {
     "sites": "set of generators that advanced in each segment of run A: model.must <= measured <= model.may",
     "lowness": "per boundary and generator: state(A)==state(B) iff the model's taint analysis marks it seed-determined",
-    "delivery": "seeds received by sub-env i at each reset == model (seed+i at the first reset after env.seed, then None)",
+    "delivery": "(seed, options) received by sub-env i at each reset == model (seed+i AND the pending options at the first "
+                "reset after env.seed, then (None, no options))",
     "measured": "measured trace (real order of seeding calls, one draw per advanced generator) passes traceOK in the model",
 }
 
@@ -95,6 +97,7 @@ class NoisyEnv(gym.Env):
         self.g = np.zeros(2)
         self.t = 0
         self.reset_seeds = []   # seed argument of every reset() call
+        self.reset_opts = []    # tag of the options argument of every reset() call (None: no options)
         self.actions = []       # bytes of every action received
         self.n_draws = 0
 
@@ -130,7 +133,8 @@ class NoisyEnv(gym.Env):
     def reset(self, *, seed=None, options=None):
         super().reset(seed=seed)
         self.reset_seeds.append(seed)
-        self.x = self._noise()
+        self.reset_opts.append((options or {}).get("tag"))
+        self.x = self._noise() * float((options or {}).get("scale", 1.0))
         self.g = self.np_random.normal(size=2)
         self.t = 0
         return self._obs(), {}
@@ -158,7 +162,7 @@ class NoisyEnv(gym.Env):
 
     # reachable through env_method (SubprocVecEnv)
     def get_record(self):
-        return {"reset_seeds": list(self.reset_seeds), "actions": list(self.actions), "n_draws": self.n_draws,
+        return {"reset_seeds": list(self.reset_seeds), "reset_opts": list(self.reset_opts), "actions": list(self.actions), "n_draws": self.n_draws,
                 "np_random": gen_token(getattr(self, "_np_random", None))}
 
     def poison(self, amb):
@@ -256,8 +260,9 @@ class Recorder:
     def last_reset_seeds(self):
         if self.subproc:
             recs = self.venv_base.env_method("get_record")
-            return [r["reset_seeds"][-1] if r["reset_seeds"] else "never" for r in recs]
-        return [(e.unwrapped.reset_seeds[-1] if e.unwrapped.reset_seeds else "never") for e in self.venv_base.envs]
+            return [[r["reset_seeds"][-1], r["reset_opts"][-1]] if r["reset_seeds"] else "never" for r in recs]
+        return [([e.unwrapped.reset_seeds[-1], e.unwrapped.reset_opts[-1]] if e.unwrapped.reset_seeds else "never")
+                for e in self.venv_base.envs]
 
     def mark(self, label, info=None):
         self.marks.append([label, info or {}, self.snapshot()])
@@ -464,6 +469,15 @@ def make_noise(case):
     return base
 
 
+def make_options(case):
+    """argument of VecEnv.set_options: one dict for all sub-envs, or a per-env list with empty entries"""
+    tags = case.get("opts_tags") or []
+    dicts = [({"tag": t, "scale": 1.0 + t / 8.0} if t is not None else {}) for t in tags]
+    if case.get("opts") == "dict":
+        return dicts[0]
+    return dicts
+
+
 def build_env(case, amb):
     from stable_baselines3.common.vec_env import DummyVecEnv, SubprocVecEnv, VecNormalize
 
@@ -491,6 +505,8 @@ def build_env(case, amb):
     if wrap == "vecnorm":
         venv = VecNormalize(base, norm_obs=True, norm_reward=True, clip_obs=10.0,
                             norm_obs_keys=(["vec"] if case["obs"] == "dict" else None))
+    if case.get("opts") and case.get("opts_when") == "constructor":
+        venv.set_options(make_options(case))   # the env constructor leaves reset options pending
     return base, venv
 
 
@@ -592,6 +608,9 @@ def run_once(case, seed, amb):
         rec.mark("start")
         model = build_model(case, seed, venv, base, shared)
         rec.mark("constructed")
+        if case.get("opts") and case.get("opts_when") == "before_learn":
+            model.get_env().set_options(make_options(case))
+            rec.mark("setopts", {"opts": list(case["opts_tags"])})
         vb = model.env
         while hasattr(vb, "venv"):
             vb = vb.venv
@@ -679,8 +698,7 @@ def gen_case(rng, thorough, widen):
     wraps = [("dummy", 6), ("vecnorm", 2 if obs != "image" else 0)]
     if n_envs == 1:
         wraps.append(("raw", 2))
-    if thorough:
-        wraps.append(("subproc", 1))
+    wraps.append(("subproc", 1))
     wrap = rng.weighted([w for w in wraps if w[1] > 0])
     c["wrap"] = wrap
     # ambient state --------------------------------------------------------------------------------
@@ -696,6 +714,18 @@ def gen_case(rng, thorough, widen):
     c.update(env_py=(not sub) and rng.chance(0.25), env_npg=(not sub) and rng.chance(0.25),
              max_len=rng.randint(3, 8), p_term=rng.choice([0.0, 0.1, 0.3]))
     # run length -----------------------------------------------------------------------------------
+    # reset options pending at the model's first reset (VecEnv.set_options by the env constructor / before learn())
+    c.update(opts=None, opts_when=None, opts_tags=None)
+    if rng.chance(0.35):
+        kind = rng.choice(["dict", "list"])
+        if kind == "dict":
+            tags = [rng.randint(1, 9)] * n_envs
+        else:
+            tags = [rng.randint(1, 9) if rng.chance(0.6) else None for _ in range(n_envs)]
+            if all(t is None for t in tags) and rng.chance(0.7):
+                tags[rng.randint(0, n_envs - 1)] = rng.randint(1, 9)
+        when = "before_learn" if wrap == "raw" else rng.weighted([("constructor", 3), ("before_learn", 1)])
+        c.update(opts=kind, opts_when=when, opts_tags=tags)
     c["cfg_poison"] = rng.chance(0.25)   # forced to True below when there is an action-noise object
     c["learn_calls"] = 2 if rng.chance(0.2) else 1
     c["reset_ts"] = rng.chance(0.5)
@@ -749,10 +779,14 @@ def shrink_candidates(case):
 
     if case.get("learn_calls", 1) > 1:
         yield alt(learn_calls=1)
+    if case.get("opts"):
+        yield alt(opts=None, opts_when=None, opts_tags=None)
     if case["wrap"] != "dummy":
         yield alt(wrap="dummy")
     if case["n_envs"] > 1:
         c = alt(n_envs=case["n_envs"] - 1)
+        if c.get("opts_tags"):
+            c["opts_tags"] = c["opts_tags"][:c["n_envs"]]
         if c.get("noise") and c["noise"].startswith("vec_") and c["n_envs"] == 1:
             c["noise"] = c["noise"][4:]
         yield c
@@ -844,6 +878,9 @@ def build_ops(case, seed, run):
         elif lab == "vreset":
             ops.append({"o": "envReset", "n": n})
             ops += [{"o": "draw", "g": x, "k": 1} for x in adv]
+        elif lab == "setopts":
+            ops += [{"o": "draw", "g": x, "k": 1} for x in adv]
+            ops.append({"o": "setOptions", "opts": info["opts"]})
         elif lab == "noisereset":
             ops += [{"o": "draw", "g": x, "k": 1} for x in adv if x != "noise"]
             ops.append({"o": "reset", "g": "noise"})
@@ -895,8 +932,10 @@ def build_ops(case, seed, run):
             ev = {"e": "idle"}
         events.append(ev)
         groups.append([ev["e"], [i]])
-    predict = {"op": "predict", "cfg": model_cfg(case, seed), "resetDraws": reset_draws, "events": events}
-    meas = {"op": "measured", "n": n, "segments": measured}
+    tags = list(case.get("opts_tags") or [None] * n) if case.get("opts") else [None] * n
+    predict = {"op": "predict", "cfg": model_cfg(case, seed), "resetDraws": reset_draws, "options": tags, "events": events}
+    meas = {"op": "measured", "n": n, "options": tags if case.get("opts_when") == "constructor" else [None] * n,
+            "segments": measured}
     return predict, meas, groups
 
 
@@ -1074,6 +1113,8 @@ def check_cases(ctx, cases):
         for k in ("use_sde", "her", "noise", "env_py", "env_npg", "pre_env_seed", "pre_reset", "opt_mem", "cfg_poison"):
             if case.get(k):
                 rep.count(f"opt:{k}" + (f"={case[k]}" if isinstance(case[k], str) else ""))
+        if case.get("opts"):
+            rep.count(f"opt:set_options={case['opts']}@{case['opts_when']}")
         if case["learn_calls"] > 1:
             rep.count("opt:second_learn" + ("_reset" if case["reset_ts"] else "_continue"))
         if case["algo"] not in ON_POLICY and case.get("learning_starts", 0) > 0:
